@@ -5,11 +5,12 @@ C20 driver: one scenario per line, the model's prediction of the canonical resul
 
   drv    uring | poll         (poll: `write(2)` on the blocking pipe runs on the runtime thread)
   route  pool | pidfd
-  plan   conc | drainwait | waitdrain | seq | held
+  plan   conc | drainwait | waitdrain | seq | held | held-unfixed (the behaviour before the repair of F201)
   stdin  pipe | null
   mode   exact | loose        (loose: outcome is schedule dependent, only the monitors judge it)
   script `;`-separated: copy:<limit|*>:<blk>:<o|e|n>  emit:<o|e|n>:<byte>:<count>  nop  exit:<code>  kill:<sig>   (`-` = empty)
-  opts   harness-only options (ignored)
+  opts   comma separated; `reaped` = the child is reaped by somebody else before compio waits (the wait
+         fails with ECHILD: `st=lost`); everything else is harness-only
 
 Answer: `ok out=<len>:<fnv64> err=<len>:<fnv64> sunk=<n> w=<ok|epipe|racy> st=<code:N|sig:N>` | `deadlock` | `loose`.
 -/
@@ -66,13 +67,14 @@ def parsePlan : String → Option Plan
   | "waitdrain" => some .waitDrain
   | "seq" => some .seq
   | "held" => some .held
+  | "held-unfixed" => some .heldUnfixed
   | _ => none
 
 def showStatus : Status → String
   | .exited c => s!"code:{c}"
   | .signaled g => s!"sig:{g}"
 
-def answer (c : Cfg) (script : List CAct) (payload : Bytes) (stdinNull : Bool) : String :=
+def answer (c : Cfg) (script : List CAct) (payload : Bytes) (stdinNull : Bool) (reaped : Bool) : String :=
   let s0 := init script payload stdinNull
   let s := runCanon c (mu s0) s0
   if !s.completed then "deadlock" else
@@ -83,14 +85,16 @@ def answer (c : Cfg) (script : List CAct) (payload : Bytes) (stdinNull : Bool) :
     else "racy"
   let w' := if s.wepipe then "epipe" else "ok"
   let w := if w = "racy" then w else w'
-  let st := match s.wt with | .done st => showStatus st | _ => "none"
+  let st := match s.wt with
+    | .done st => (match waitOutcome reaped st with | some st => showStatus st | none => "lost")
+    | _ => "none"
   s!"ok out={showBytes s.rout} err={showBytes s.rerr} sunk={s.sunk} w={w} st={st}"
 
 def step (_ : Unit) (line : String) : Unit × String :=
   if line.startsWith "#case" then ((), line.trimAscii.toString) else
   let out :=
     match words line with
-    | ["run", drv, route, capin, capout, caperr, plan, wch, rch, stdin, paylen, payseed, mode, script, _opts] =>
+    | ["run", drv, route, capin, capout, caperr, plan, wch, rch, stdin, paylen, payseed, mode, script, opts] =>
       match capin.toNat?, capout.toNat?, caperr.toNat?, parsePlan plan, wch.toNat?, rch.toNat?,
             paylen.toNat?, payseed.toNat?, parseScript script with
       | some capIn, some capOut, some capErr, some plan, some wchunk, some rchunk, some len, some seed, some script =>
@@ -100,7 +104,7 @@ def step (_ : Unit) (line : String) : Unit × String :=
         else
           let c : Cfg := { capIn, capOut, capErr, wchunk, rchunk, blocking := drv = "poll",
                            pidfd := route = "pidfd", plan }
-          answer c script (payloadOf len seed) (stdin = "null")
+          answer c script (payloadOf len seed) (stdin = "null") ((opts.splitOn ",").contains "reaped")
       | _, _, _, _, _, _, _, _, _ => "bad-op"
     | _ => "bad-op"
   ((), out)
